@@ -9,6 +9,7 @@ from __future__ import annotations
 import random
 
 NAN = float('nan')
+INF = float('inf')
 
 INT_LABELS = list(range(8))
 STR_LABELS = ['cat', 'dog', 'bird', 'y', 'n', 'u', 'Tiger', 'ox']
@@ -308,6 +309,38 @@ def _numeric_batches(rng, p_nan):
     else:
       batches.append([val() for _ in range(rows)])
   return batches
+
+
+def gen_stats_inf(rng):
+  """Mean / MeanAndVariance / Var on data that holds +inf / -inf among finite
+  values and no NaN, cut into 1-4 non-empty batches (1-D or 2-4 columns)."""
+  sub = rng.choice(['mean', 'mean', 'meanvar', 'meanvar', 'var'])
+  kind = rng.choice(['int', 'dyadic', 'float'])
+  signs = rng.choice([(INF,), (INF,), (-INF,), (INF, -INF), (INF, -INF)])
+  p_inf = rng.choice([0.08, 0.2, 0.5])
+  ncol = rng.choice([0, 0, 0, 2, 3, 4])
+  inf_cols = None if (not ncol or rng.random() < 0.4) else {rng.randrange(ncol)}
+  def val(j=None):
+    if (inf_cols is None or j in inf_cols) and rng.random() < p_inf:
+      return rng.choice(signs)
+    return _number(rng, kind)
+  batches = []
+  for _ in range(rng.choice([1, 2, 2, 3, 4])):
+    rows = rng.choice([1, 1, 2, 3, 5, 8])
+    if ncol:
+      batches.append([[val(j) for j in range(ncol)] for _ in range(rows)])
+    else:
+      batches.append([val() for _ in range(rows)])
+  flat = [v for b in batches for r in b for v in (r if ncol else [r])]
+  if not any(v in (INF, -INF) for v in flat):
+    b = rng.choice(batches)
+    i = rng.randrange(len(b))
+    if ncol:
+      b[i][min(inf_cols) if inf_cols else rng.randrange(ncol)] = rng.choice(signs)
+    else:
+      b[i] = rng.choice(signs)
+  return {'family': 'stats', 'sub': sub, 'config': {'inf': True},
+          'input': {'batches': batches}}
 
 
 def gen_stats(rng):
@@ -655,10 +688,12 @@ def gen_clsbig(rng):
 
 
 GENERATORS = {'clsbig': gen_clsbig, 'cls': gen_cls, 'retr': gen_retr, 'thr': gen_thr,
-              'stats': gen_stats, 'misc': gen_misc}
+              'stats': gen_stats, 'statsinf': gen_stats_inf, 'misc': gen_misc}
 
 
 def gen(family, rseed, index):
   case = GENERATORS[family](_rng(family, rseed, index))
   case['src'] = {'rseed': rseed, 'index': index}
+  if case['family'] != family:
+    case['src']['generator'] = family
   return case
